@@ -9,7 +9,7 @@
    Standard / File exist); [derived k f]: the constructor computes [f] itself (network: the prompt
    pattern is the joined privilege patterns; NETCONF: prompt pattern and NetconfConnection; the NETCONF
    driver's Logger follows WithLogger since the fix of C19:netconf-logger-dropped) — WithPromptPattern is overridden there, which is what the code documents. *)
-From Scrapli Require Import Bytes Regex PlatformTypes Generated Options OptionsLemmas.
+From Scrapli Require Import Bytes Regex PlatformTypes Generated Options OptionsLemmas DecideLang GeneratedSkel OptionsSrc.
 
 (* the model has exactly one constructor per `With*` function of driver/options (names generated
    from the source on every run), and one case per option name of platform/options.go *)
@@ -120,6 +120,38 @@ Theorem C19_platform_open_args_illtyped : forall p user v, In (open_args_name, v
   (forall l, v <> YSeq l) -> build_platform p user = Panic.
 Proof. exact platform_open_args_illtyped_panics. Qed.
 
+(* THE TIE BY TRANSLATION: the closure of EVERY option constructor of driver/options, as the source
+   has it on this run (GeneratedSkel.option_code), asserts exactly the object [opt_target] names;
+   returns util.ErrIgnoredOption having assigned and called nothing when the assertion fails;
+   assigns exactly the fields of [opt_writes], in order, additively exactly for the additive
+   option, and returns nil when it holds; and assigns nothing and returns an error when its value
+   check fails (whatever the object, for the options that check before asserting).
+   (OptionsSrc.option_src_ok; one sample per constructor, names tied to the source's inventory by
+   C19_inventory and to the model's constructors by opt_samples_complete.) *)
+Theorem C19_options_are_source : options_src_ok = true.
+Proof. exact options_src_ok_true. Qed.
+
+(* each of the eight loops that apply an option list to an object (generic / network / NETCONF
+   NewDriver, NewTransport, NewArgs, NewSSHArgs, NewTelnetArgs, NewChannel), as the source has it on
+   this run: for EVERY list of closure outcomes (applied / ignored / failed) the closures are called
+   in list order; the first one that fails with anything but the ignored sentinel ends the
+   construction with its error and no later closure is called; otherwise all are called.
+   [C19_pass_first_failed]: the model's loop [pass] fails exactly in that case. *)
+Theorem C19_option_loops_are_source : forall e, In e option_loops ->
+  forall outs, exists lst,
+  match first_failed outs 0 with
+  | Some j => exists st', DecideLang.exec 10 (loop_env outs lst) [snd e] []%list = Returned st' "nil, err"%string /\ napplied st' = S j
+  | None => exists st', DecideLang.exec 10 (loop_env outs lst) [snd e] []%list = Running st' /\ napplied st' = length outs
+  end.
+Proof. exact option_loops_are_source. Qed.
+
+Theorem C19_pass_first_failed : forall ob opts s,
+  match first_failed (map (outcome_of ob) opts) 0 with
+  | Some _ => forall s', pass ob opts s <> Ok s'
+  | None => exists s', pass ob opts s = Ok s'
+  end.
+Proof. exact pass_first_failed. Qed.
+
 Print Assumptions C19_inventory.
 Print Assumptions C19_build_closed_form.
 Print Assumptions C19_build_is_one_fold.
@@ -142,3 +174,6 @@ Print Assumptions C19_platform_typed.
 Print Assumptions C19_netconf_logger.
 Print Assumptions C19_platform_open_args.
 Print Assumptions C19_platform_open_args_illtyped.
+Print Assumptions C19_options_are_source.
+Print Assumptions C19_option_loops_are_source.
+Print Assumptions C19_pass_first_failed.
